@@ -281,6 +281,10 @@ const (
 
 // Decode a raw v4 or v6 IP packet.
 func decodeIPv4or6(data []byte, p gopacket.PacketBuilder) error {
+	if len(data) < 1 {
+		p.SetTruncated()
+		return fmt.Errorf("Invalid IP packet length %d", len(data))
+	}
 	version := data[0] >> 4
 	switch version {
 	case 4:
